@@ -249,7 +249,7 @@ def leg_io(ns, res, spec):
         if o.error != 'io':
             res.violation('py:inconsistent-input-not-io-error:' + name, '[py] %s: expected an IO-handling error, got %r (%s)' % (name, o.error, o.error_msg), {'leg': 'io', 'name': name})
     # defective quoting under quoted_rfc
-    for text in ['a,"b\n', 'a,b"c\nd,e\n', 'x\n"a"b,c\n']:
+    for text in ['a,"b\n', 'a,b"c\nd,e\n', 'x\n"a"b,c\n', 'x\n"a"b\n', 'a"b\n', '"ab\nc\n', 'x,y\nz"\n', 'x\n"a" b\ny\n', 'x\n"a"\n', 'x\n "a" \ny\n']:
         err = None
         try:
             it = ns.csv.CSVRecordIterator(io.StringIO(text, newline=''), None, ',', 'quoted_rfc')
@@ -301,13 +301,15 @@ def leg_warnings(ns, res, spec):
     pieces_ok = ['a,b', 'c,d', 'e,f', 'x;y,z']
     anomalies = {
         'ragged': ['a', 'a,b,c', ''],
-        'quote': ['a"b,c', 'x,y"'],
+        'quote': ['a"b,c', 'x,y"', 'a"b', '"x"y', 'y"', '"p" q'],      # with and without a delimiter in the record
         'sepfield': ['p;q,r', ';,;'],
     }
     count = 0
     for mask in range(0, 16):
         for rep in range(spec['n']):
             lines = [rng.choice(pieces_ok[:3]) for _ in range(rng.randrange(1, 5))]
+            if rep % 4 == 3:
+                lines = [l[0] for l in lines]      # a single-column file: no record holds a delimiter
             if mask & 1:
                 lines.insert(rng.randrange(0, len(lines) + 1), rng.choice(anomalies['ragged']))
             if mask & 2:
